@@ -59,6 +59,13 @@ def digest(c) -> str:
 def gen_legacy(g, rng, depth=0):
     """value tree that may contain the python-2 writer markers"""
     k = rng.random()
+    if depth < 2 and rng.random() < 0.12:
+        # the same payload bytes under several string opcodes in one item (each opcode has its own decoding)
+        t = rng.choice(("caf\u00e9", "\u65e5\u672c", "\u00e9", "na\u00efve \U0001f600", g.gen_str() or "x"))
+        pl = t.encode("utf-8")
+        same = [codec.Py2Str(pl), codec.Py2Unicode(t), t, codec.Py2Str(pl), pl, codec.Py2Unicode(t)]
+        rng.shuffle(same)
+        return same[: rng.randint(2, len(same))]
     if k < 0.2:
         return codec.Py2Str(rng.choice([b"", b"abc", b"\xe9\xff", bytes(range(256)), rng.randbytes(rng.randint(0, 40))]))
     if k < 0.35:
